@@ -73,6 +73,8 @@ void ref_decode(const uint8_t* b, size_t n, size_t L, uint64_t alloc_cap, void (
  * half item holding a non-half value, tag without item) ; writes at most cap bytes */
 size_t ref_encode(const rnode* t, uint8_t* out, size_t cap);
 size_t ref_encoded_size(const rnode* t);
+/* one head: major type mt, argument v, force_w = 0 (shortest) | 8 (immediate up to 23, else one byte) | 16 | 32 | 64 | -1 (immediate); returns its length */
+size_t ref_put_head(uint8_t* out, size_t cap, size_t o, uint8_t mt, uint64_t v, int force_w);
 
 /* ---- IEEE 754 by integer arithmetic ---------------------------------------------------- */
 uint32_t ref_half_to_single_bits(uint16_t h, bool* isnan);
